@@ -3,6 +3,7 @@ CONSTANTS
   Mode = "fault"
   MaxFiles = 0
   GenKinds = {"use", "forward", "import"}
+  GenPre = {"none"}
   GenWhere = {"root"}
 INVARIANTS EmitFault
 CHECK_DEADLOCK FALSE
